@@ -212,7 +212,20 @@ def spec_cases(draw):
     from checks import c05
 
     c = draw(c05.specs())
-    return {"src": {"spec": c["spec"]}, "opts": draw(inputs.WRITER_OPTS), "cycles": draw(st.integers(2, 3)),
+    opts = dict(draw(inputs.WRITER_OPTS))
+    if draw(st.integers(0, 4)) == 0:
+        # a file that declares VERS 1.0 (laid out like 1.2), written without version=: reader and writer must agree on
+        # the layout that goes with the version the output declares
+        hit = False
+        for sec in c["spec"]["sections"]:
+            if sec["kind"] == "V":
+                for ln in sec["lines"]:
+                    if ln.get("t") == "item" and ln.get("m", "").upper() == "VERS" and ln.get("v") == "1.2":
+                        ln["v"] = "1.0"
+                        hit = True
+        if hit:
+            opts.pop("version", None)
+    return {"src": {"spec": c["spec"]}, "opts": opts, "cycles": draw(st.integers(2, 3)),
             "read_kw": {"mnemonic_case": c["mnemonic_case"]}}
 
 
